@@ -17,7 +17,7 @@ CONFIG = {
                    "with generation, format, digest and action."),
     "level_note": "the order among sections of sibling nested histories is not judged; renamed files with -v are not generated.",
     "technique": "deterministic simulation: seeded histories; info output parsed against an independent reading of the manifests",
-    "quick": {"runs": 720, "budget_s": 90},
+    "quick": {"runs": 1000, "budget_s": 120},
     "thorough": {"runs": 5000, "budget_s": 540},
     "rule": ("one run = random (nested) history + info variants; one evaluation = one info invocation. Distinct = (variant, "
              "#histories, max #generations, file depth in nested histories, #lines printed, exit); non-trivial = history "
